@@ -37,6 +37,9 @@ CLAIMS = {
     "C20": ("Proof, for all topologies and preferences, with loop invariants (quantified round-robin bookkeeping) on the real topology.NextReadEndpoint: a returned endpoint is never dead and is permitted by the read preference; 'no endpoint' is answered only when no live permitted endpoint existed (completeness, all five preferences); a returned secondary is the FIRST live one after the old cursor in cyclic order and the cursor moves onto it; all loops terminate (decreasing measures). topology.Update installs the announced leader as a NEW endpoint of type primary, alive, and keeps the no-nil-entries invariant (nested loop invariants). callPrimary sends at most one request and only to the endpoint the topology names as primary, and its retry loop terminates; BackoffRequestRetrier.DoReq terminates within maxRetries+1 attempts.",
             "Not decided: callAny's termination (needs a cardinality measure over live endpoints); convergence on a new leader after discovery/redirect (liveness across requests).",
             "DESIGN.md section 4, C20"),
+    "C04": ("Claimed for the HISTORY digest of a single insertion, proved by induction on the tree height over the real pruneToInsert / insertVisitor / operation.Accept code: on a cache that holds the true hash Hist(i,h,V) of every subtree completed before version V (StoreOK), HistoryTree.Add(d, V) with d = ev(V) returns exactly Hist(0, len64(V), V), the root hash that the specification function Hist assigns to the event sequence ev(0..V) - so the digest is a function of the sequence alone, not of cache contents, batching or timing. Each Visit*/Accept method is proved against one equation of the specification function evalI; the constructors' equations are proved by unfolding.",
+            "Not decided: the hyper digest (key -> version map; the operation-stack interpreter is outside the verified subset); HistoryTree.AddBulk (one visitor over several versions needs a cache model with updates); that StoreOK is re-established after each insertion (the puts of the newly frozen nodes), i.e. the induction over the sequence itself; restarts. Assumes: one hash function H for all hashers; position.Bytes = be64(index)||be16(height); a cache's answers are a function of the cache and the key during one Add (entries put during an Add are never read back in it); dynamic dispatch.",
+            "DESIGN.md section 4, C04"),
     "C09": ("Narrow claim, proved on the real code: (leader side) the state-transfer filter built in RaftNode.FetchSnapshot refuses with an error every batch whose previous version lies beyond the follower's position (a gap), ships exactly the batches that continue the sequence and moves its position to where they end, never skips a continuation and never moves on a refusal; (follower side) RaftNode.Restore performs at most one transfer and, after it, re-derives everything it keeps in memory from the store: fsm state, balloon version and the hyper-tree cache (ghost bookkeeping: each of the three was last derived after the last LoadSnapshot); the loading phase of HyperTree.RebuildCache reads the tile table TO ITS END, puts EVERY tile it reads into the cache (loop invariants over ghost counters of the reader and the cache) and releases the reader. Two genuine defects found: the reader was never closed (fixed), and, first, one genuine defect found (the hyper cache was never rebuilt after a transfer: a restored follower computed different hyper digests), demonstrated on the real balloon and fixed.",
             "Not decided: that the replayed batches reproduce the leader's store (RocksDB WAL iteration and write-batch replay are outside the verifier's reach: rocksdb is cgo and does not build in the sandbox), equality of proofs/digests of the restored node with the leader's (needs the tree contracts), schedules/fault sequences. Assumes: decodeMsgPack decodes what encode wrote (probes), loadState/RefreshVersion/RebuildCache bookkeeping clauses (`assumes`), attemptToFetchSnapshot leaves n.state alone.",
             "DESIGN.md section 4, C09"),
